@@ -104,6 +104,7 @@ type rewriter struct {
 	n       int
 	tmp     int
 	callFun map[ast.Expr]bool // selector expressions in call position
+	nonBlocking map[ast.Node]bool // select statements with a default clause and the channel operations in their cases
 }
 
 func (r *rewriter) pos(n ast.Node) token.Position { return r.p.Fset.Position(n.Pos()) }
@@ -116,10 +117,34 @@ func (r *rewriter) site() *ast.BasicLit {
 }
 
 func rewriteFile(p *packages.Package, f *ast.File) bool {
-	r := &rewriter{p: p, f: f, callFun: map[ast.Expr]bool{}}
+	r := &rewriter{p: p, f: f, callFun: map[ast.Expr]bool{}, nonBlocking: map[ast.Node]bool{}}
 	ast.Inspect(f, func(n ast.Node) bool {
 		if c, ok := n.(*ast.CallExpr); ok {
 			r.callFun[ast.Unparen(c.Fun)] = true
+		}
+		// A select WITH a default clause never blocks: its channel operations are left as they are
+		// (a scheduling point is put in front of the select). Everything else on channels can block
+		// the only running task for ever and is refused.
+		if sel, ok := n.(*ast.SelectStmt); ok {
+			hasDefault := false
+			for _, cl := range sel.Body.List {
+				if cc, ok := cl.(*ast.CommClause); ok && cc.Comm == nil {
+					hasDefault = true
+				}
+			}
+			if hasDefault {
+				r.nonBlocking[sel] = true
+				for _, cl := range sel.Body.List {
+					if cc, ok := cl.(*ast.CommClause); ok && cc.Comm != nil {
+						ast.Inspect(cc.Comm, func(m ast.Node) bool {
+							if m != nil {
+								r.nonBlocking[m] = true
+							}
+							return true
+						})
+					}
+				}
+			}
 		}
 		return true
 	})
@@ -175,12 +200,22 @@ func (r *rewriter) rewriteNode(n ast.Node) {
 		case *ast.GoStmt:
 			r.rewriteGo(c, x)
 		case *ast.SelectStmt:
-			fatal("select statement at %s: channels are not mediated", r.pos(x))
+			if !r.nonBlocking[x] {
+				fatal("select statement without default at %s: blocking channel operations are not mediated", r.pos(x))
+			}
+			if _, labeled := c.Parent().(*ast.LabeledStmt); labeled {
+				fatal("labelled select at %s cannot be mediated", r.pos(x))
+			}
+			c.Replace(&ast.BlockStmt{List: []ast.Stmt{&ast.ExprStmt{X: &ast.CallExpr{Fun: sel("simrt", "Yield"), Args: []ast.Expr{r.site()}}}, x}})
+			r.changed = true
+			st.Sync++
 		case *ast.SendStmt:
-			fatal("channel send at %s: channels are not mediated", r.pos(x))
+			if !r.nonBlocking[x] {
+				fatal("channel send at %s: blocking channel operations are not mediated", r.pos(x))
+			}
 		case *ast.UnaryExpr:
-			if x.Op == token.ARROW {
-				fatal("channel receive at %s: channels are not mediated", r.pos(x))
+			if x.Op == token.ARROW && !r.nonBlocking[x] {
+				fatal("channel receive at %s: blocking channel operations are not mediated", r.pos(x))
 			}
 		}
 		return true
